@@ -67,8 +67,8 @@ Init == /\ cur \in InitTerms /\ fs = FreeSyms(cur) /\ den = Doit(cur) /\ n = 0 /
 \* (ii) a map whose keys only occur bound changes nothing; (iii) on a node it is a homomorphism
 SubstChecks(m, r) ==
   << <<"SubstEval", LeafKeyed(m) => Doit(r) = Doit(Subst(den, m))>>,
-     <<"SubstEvalFreePart", LeafKeyed(m) => Doit(r) = Doit(Subst(den, RestrictFree(m, cur)))>>,
-     <<"BoundKeysIrrelevant", LeafKeyed(m) => r = Subst(cur, RestrictFree(m, cur))>>,
+     <<"SubstEvalFreePart", (LeafKeyed(m) /\ RestrictFree(m, cur) # m) => Doit(r) = Doit(Subst(den, RestrictFree(m, cur)))>>,
+     <<"BoundKeysIrrelevant", (LeafKeyed(m) /\ RestrictFree(m, cur) # m) => r = Subst(cur, RestrictFree(m, cur))>>,
      <<"SubstEvalExact", (LeafKeyed(m) /\ UnfoldedRepl(m)) => Doit(r) = Subst(den, m)>>,
      <<"BoundIdentity", LawBoundIdentity(cur, m)>>,
      <<"Homomorphism", LawHomomorphism(cur, m)>>,
